@@ -145,7 +145,7 @@ struct vh_ctx {
 };
 
 /* harness.c */
-extern unsigned long long vh_edge_counter;
+extern _Thread_local unsigned long long vh_edge_counter;
 void vh_out(struct vh_ctx *c, const char *fmt, ...) __attribute__((format(printf, 2, 3)));
 void vh_out_hex(struct vh_ctx *c, const unsigned char *p, size_t n);
 void vh_out_nl(struct vh_ctx *c);           /* end the line (and flush in fd mode) */
